@@ -25,6 +25,7 @@ inductive Outcome where
   | backoffReq   -- raised the internal backoff request
   | exc          -- raised an arbitrary Exception
   | baseExc      -- raised a BaseException
+  | noopThenFail -- called `nothing_happened()` and then raised (backoff request or exception) in the same call
   deriving Repr, DecidableEq
 
 /-- runnable.py:70-71 `__increment_backoff` -/
